@@ -134,7 +134,19 @@ func cmdRSA(args []string) {
 					tmplSet[o.ID] = &rsaTemplate{id: o.ID, fc: fc}
 				}
 				forLint[name] = append(forLint[name], o.ID)
-				if len(forLint[name]) >= 2 {
+				// the same template dated at the very start of the rule's window (in memory): the arithmetic predicate holds for
+				// every certificate on which the rule applies, whenever it was issued
+				if eff := l.Meta.EffectiveDate; !eff.IsZero() && len(forLint[name]) == 1 {
+					id := "at-effective-date:" + name + ":" + o.ID
+					if fc2, err2 := forge.ParseCert(o.DER); err2 == nil {
+						tmplSet[id] = &rsaTemplate{id: id, fc: fc2, tweak: func(c *x509.Certificate) {
+							c.NotBefore = eff
+							c.NotAfter = eff.AddDate(1, 0, 0)
+						}}
+						forLint[name] = append(forLint[name], id)
+					}
+				}
+				if len(forLint[name]) >= 3 {
 					break
 				}
 			}
